@@ -183,7 +183,10 @@ class WriteTool(BaseTool):
         protected: list[tuple[int, int]] = []
 
         # Find literal zone boundaries (``` fences)
+        # Same rule as the lexer: a zone opened with N backticks is closed only by a line of
+        # exactly N backticks; shorter backtick runs inside it are content.
         in_fence = False
+        fence_marker = ""
         fence_start = 0
         offset = 0
         for line in content.split("\n"):
@@ -193,8 +196,9 @@ class WriteTool(BaseTool):
             if stripped.startswith("```"):
                 if not in_fence:
                     in_fence = True
+                    fence_marker = stripped[: len(stripped) - len(stripped.lstrip("`"))]
                     fence_start = line_start
-                else:
+                elif stripped == fence_marker:
                     in_fence = False
                     fence_end = line_start + len(line)
                     protected.append((fence_start, fence_end))
